@@ -401,6 +401,32 @@ def check_c05(w):
                                 % (uid, a['begin'], r['op'], r.get('PartNumber')))
 
 
+def check_c05_hung(w):
+    """'... it is never left open': in a run where nothing can run any more, a
+    multipart upload whose id the library received, whose transfer is done by
+    the library's own account (status failed / cancelled), and which was neither
+    aborted nor completed stays open for ever."""
+    f = w.sim.failure
+    if f is None or f[0] != 'deadlock' or w.benign_leftover:
+        return
+    for u in w.s3.uploads.values():
+        t = w.t_of_key(u['key'])
+        if t is None or not u['returned'] or t['future'] is None or u['state'] != 'open':
+            continue
+        coord = t['future']._coordinator
+        if coord.status not in ('failed', 'cancelled'):
+            continue
+        rs = [r for r in w.s3.log if r.get('UploadId') == u['id']]
+        if any(r['op'] == 'abort_multipart_upload' for r in rs) or \
+                any(r['end'] is None for r in rs):
+            continue
+        w.violation('C05', 'orphan-upload',
+                    't%d is %s and nothing can run any more, but no abort was ever issued '
+                    'for %s: the upload stays open' % (t['idx'], coord.status, u['id']),
+                    {'variant': 'hung'})
+        return
+
+
 def check_c06_end(w):
     removed_failed = any(f['spec']['site'] == 'fs' and f['spec'].get('op') == 'remove'
                          for f in w.faults.fired)
@@ -921,6 +947,7 @@ def evaluate(w):
         # a hung run: only oracles that are meaningful on partial histories
         check_effects(w)
         check_c18(w)
+        check_c05_hung(w)
         check_c07_hung(w)
         check_c08_hung(w)
     return w
